@@ -124,7 +124,7 @@ def run_conc(prop, tier, seed, jobs_spec, own_guards, mc, builds=("rel", "dbg"),
             out = os.path.join(od, "t_%s_%s_%s_%d.ndjson" % (js["prog"], js["strategy"], b, k))
             cmd = [exes[b], "--out", out, "--prog", js["prog"], "--seed", str(js.get("seed", seed * 1000003 + k * 1009)), "--runs", str(js["runs"][q]),
                    "--strategy", js["strategy"]] + list(js.get("args", [])) + ([] if js["prog"] in NO_STEPS else ["--steps", "1"]) + ["--segs", "1"]
-            traces.append((out, b, js, "%s.%s" % (js["prog"], js["strategy"])))
+            traces.append((out, b, js, "%s.%s%s" % (js["prog"], js["strategy"], ("." + js["tag"]) if js.get("tag") else "")))
             jobs.append((lambda cmd=cmd, env=js.get("env"): vlib.sh(cmd, timeout=1500, env=env)))
             k += 1
     if scheds:
